@@ -26,16 +26,17 @@ pub struct Case {
     cpu: usize,     // 0 = real /proc/cpuinfo, k = fixture k-1
     release: usize, // 0 real, 1 lsb only, 2 os only, 3 both, 4 neither
     uname_fails: bool,
+    blame: usize, // 0 the main thread is blamed, 1 a thread with a descriptor table of its own (unshare(CLONE_FILES)) that has diverged from the process's
     linker: usize, // 0 kernel auxv (real chain), 1 direct auxv -> synthetic chain of 3, 2 direct values only for phdr/phnum, 3 direct zero (= unset, kernel's used), 4 synthetic chain of 0 objects, 5 chain with empty/long names, 6 chain whose last name ends on the last byte of readable memory
 }
 
 impl Case {
     fn to_json(&self) -> Value {
-        json!({"argv": self.argv, "env": self.env, "fds": self.fds, "cpu": self.cpu, "release": self.release, "uname_fails": self.uname_fails, "linker": self.linker})
+        json!({"argv": self.argv, "env": self.env, "fds": self.fds, "cpu": self.cpu, "release": self.release, "uname_fails": self.uname_fails, "linker": self.linker, "blame": self.blame})
     }
     fn from_json(v: &Value) -> Option<Case> {
         let g = |k: &str| v.get(k).and_then(|x| x.as_u64()).map(|x| x as usize);
-        Some(Case { argv: g("argv")?, env: g("env")?, fds: g("fds")?, cpu: g("cpu")?, release: g("release")?, uname_fails: v.get("uname_fails")?.as_bool()?, linker: g("linker")? })
+        Some(Case { argv: g("argv")?, env: g("env")?, fds: g("fds")?, cpu: g("cpu")?, release: g("release")?, uname_fails: v.get("uname_fails")?.as_bool()?, linker: g("linker")?, blame: g("blame").unwrap_or(0) })
     }
 }
 
@@ -387,6 +388,15 @@ pub fn run_case(c: &Case) -> Vec<(String, String)> {
         plan.push(("uname#0".into(), Alt::Errno(libc::EFAULT)));
     }
     let mut o = DumpOpts::default();
+    if c.blame == 1 {
+        match p.unshared_fd_thread() {
+            Ok(t) => o.blamed = Some(t),
+            Err(e) => {
+                fails.push(("MACHINERY".into(), format!("unshared_fd_thread: {e}")));
+                return fails;
+            }
+        }
+    }
     let syn_names: Vec<&str> = match c.linker {
         1 | 2 => vec!["", "/lib/libone.so", "/opt/x y/libtwo.so.2"],
         4 => vec![],
@@ -510,7 +520,7 @@ pub fn run_case(c: &Case) -> Vec<(String, String)> {
 
 fn menu(thorough: bool) -> Vec<Case> {
     let mut v = Vec::new();
-    let base = Case { argv: 0, env: 0, fds: 0, cpu: 0, release: 0, uname_fails: false, linker: 0 };
+    let base = Case { argv: 0, env: 0, fds: 0, cpu: 0, release: 0, uname_fails: false, linker: 0, blame: 0 };
     v.push(base.clone());
     for a in 1..5 {
         v.push(Case { argv: a, ..base.clone() });
@@ -528,17 +538,19 @@ fn menu(thorough: bool) -> Vec<Case> {
         v.push(Case { release: r, ..base.clone() });
     }
     v.push(Case { uname_fails: true, ..base.clone() });
+    v.push(Case { blame: 1, ..base.clone() });
+    v.push(Case { blame: 1, fds: 5, ..base.clone() });
     for l in 1..7 {
         v.push(Case { linker: l, ..base.clone() });
     }
     // combinations
-    v.push(Case { argv: 2, env: 2, fds: 6, cpu: 2, release: 3, uname_fails: false, linker: 1 });
-    v.push(Case { argv: 3, env: 3, fds: 12, cpu: 4, release: 1, uname_fails: true, linker: 2 });
+    v.push(Case { argv: 2, env: 2, fds: 6, cpu: 2, release: 3, uname_fails: false, linker: 1, blame: 0 });
+    v.push(Case { argv: 3, env: 3, fds: 12, cpu: 4, release: 1, uname_fails: true, linker: 2, blame: 0 });
     if thorough {
         for a in 0..5 {
             for e in 0..5 {
                 for l in [0usize, 1, 3] {
-                    v.push(Case { argv: a, env: e, fds: (a + e) % 7, cpu: (a * 5 + e) % 9, release: (a + e) % 5, uname_fails: false, linker: l });
+                    v.push(Case { argv: a, env: e, fds: (a + e) % 7, cpu: (a * 5 + e) % 9, release: (a + e) % 5, uname_fails: false, linker: l, blame: 0 });
                 }
             }
         }
@@ -570,6 +582,10 @@ pub fn run(ctx: &Ctx, rep: &mut Report) {
             rep.sample(c.to_json());
         }
         for (k, m) in fails {
+            if k == "MACHINERY" {
+                rep.machinery(m);
+                continue;
+            }
             rep.violation(&k, &m, c.to_json());
         }
     }
